@@ -80,11 +80,38 @@ def gen_prog(rng):
     return p
 
 
+def fixed_programs():
+    """A deterministic list: joins of operands that share no column, with predicates across them that keep all, some or
+    none of the pairs; equi-joins with and without matches; each bare, under empty-invariant operations, below a window
+    that starts exactly at / inside / beyond the rows, and across a transfer."""
+    a, b, c = K(1), K(2), K(3)
+    S = ("sql", 0)
+    X = ("leaf", 1, S, [a], [{a: 1}, {a: 2}, {a: 3}], (3, 3))
+    Y = ("leaf", 2, S, [b], [{b: 10}, {b: 20}], (2, 2))
+    Z = ("leaf", 3, S, [a, c], [{a: 7, c: 1}, {a: 8, c: 2}], (2, 2))
+    out = []
+    joins = [("join", pr, True, False, X, Y) for pr in (None, ("cmp", "lt", ("ref", a), ("ref", b)), ("cmp", "gt", ("ref", a), ("ref", b)),
+                                                        ("cmp", "gt", ("ref", a), ("add", ("ref", b), ("lit", 100))))]
+    joins += [("join", None, True, False, X, Z), ("join", ("cmp", "gt", ("ref", c), ("lit", 5)), True, False, X, Z)]
+    for j in joins:
+        out.append(j)
+        cols = sorted(set(j[4][3]) | set(j[5][3]))
+        out.append(("un", ("dedup",), mp.DEFAULT, ("un", ("proj", cols[:1]), mp.DEFAULT, j)))
+        out.append(("xfer", ("it", 0), j))
+    for lf in (X, ("leaf", 4, ("it", 0), [a], [{a: 1}, {a: 2}], (2, 2))):
+        nrows = len(lf[4])
+        for start in (nrows - 1, nrows, nrows + 1):
+            w = ("un", ("slice", start, start + 2), mp.DEFAULT, lf)
+            out += [w, ("un", ("proj", []), mp.DEFAULT, w), ("un", ("slice", start, None), mp.DEFAULT, ("un", ("proj", [a]), mp.DEFAULT, lf))]
+    return out
+
+
 def make_cases(rng, tier):
     n = 500 if tier == "quick" else 8000
     cases = []
-    for _ in range(n):
-        p = gen_prog(rng)
+    fixed = fixed_programs()
+    for it in range(n + len(fixed)):
+        p = fixed[it] if it < len(fixed) else gen_prog(rng)
         w, rel, res = mp.run_build(p)
         if rel is None:
             continue
